@@ -164,13 +164,16 @@ def failure_kind(ex, rec):
 
 
 def run_impl(doc, on_error='return', pytest_mode=False, default_state=None, inject=None, verbose=0,
-             prebuilt=None, prelude=None):
-    """returns (canonical result, example, recorder)"""
+             prebuilt=None, prelude=None, shared_default=None):
+    """returns (canonical result, example, recorder); shared_default: the options dict itself, not a copy (the runner hands
+    one dict to every doctest of a run)"""
     from xdoctest import doctest_example
     ex = prebuilt if prebuilt is not None else doctest_example.DocTest(docsrc=doc, lineno=1)
     ex.mode = 'pytest' if pytest_mode else 'native'
     if default_state is not None:
         ex.config['default_runtime_state'] = dict(default_state)
+    if shared_default is not None:
+        ex.config['default_runtime_state'] = shared_default
     with warnings.catch_warnings():
         warnings.simplefilter('ignore')
         ex._parse()
